@@ -684,8 +684,11 @@ func (ro *RedisOutput) sendAof(ctx context.Context, runId string, reader *bufio.
 	// @TODO fetch source offset, calculate gap between source and output
 	//go ro.fetchOffset()
 
+	// read here, not in the parser goroutine : the goroutine may be scheduled after Send has
+	// returned and the next StartPoint already writes the field
+	startDb := ro.startDbId
 	usync.SafeGo(func() {
-		err := ro.parseAofCommand(replayQuit, reader, offset, sendBuf)
+		err := ro.parseAofCommandFrom(replayQuit, reader, offset, sendBuf, startDb)
 		if err != nil {
 			replayQuit.Close(err)
 		}
@@ -718,6 +721,11 @@ func (ro *RedisOutput) sendAof(ctx context.Context, runId string, reader *bufio.
 }
 
 func (ro *RedisOutput) parseAofCommand(replayQuit usync.WaitCloser, reader *bufio.Reader, startOffset int64, sendBuf chan cmdExecution) error {
+	return ro.parseAofCommandFrom(replayQuit, reader, startOffset, sendBuf, ro.startDbId)
+}
+
+// parseAofCommandFrom : startDb is the target database the resume position was stored in
+func (ro *RedisOutput) parseAofCommandFrom(replayQuit usync.WaitCloser, reader *bufio.Reader, startOffset int64, sendBuf chan cmdExecution, startDb int) error {
 	var (
 		currentDB = -1
 		bypass    = false
@@ -733,9 +741,9 @@ func (ro *RedisOutput) parseAofCommand(replayQuit usync.WaitCloser, reader *bufi
 	)
 	defer ro.logger.Infof("command parser is stopped")
 
-	if ro.startDbId > 0 { // select db
+	if startDb > 0 { // select db
 		select {
-		case sendBuf <- buildSelectCmdExecution(ro.startDbId, startOffset):
+		case sendBuf <- buildSelectCmdExecution(startDb, startOffset):
 		case <-replayQuit.Context().Done():
 			return nil
 		}
